@@ -486,17 +486,26 @@ def r4_resolver(rule, root=None):
             return {A.unparse(pat)}
         return None
 
-    def leaf(e, guarded):
+    lets = {}
+
+    def leaf(e, guarded, wrapped=False):
         t = str(A.ftxt(e))
-        if t == "Ok(None)":
+        if t == ("None" if wrapped else "Ok(None)"):
+            return
+        if not wrapped and e.get("k") == "Call" and A.path_segs(e["func"]) == ["Ok"] and len(e["args"]) == 1 and A.ident(A.strip(e["args"][0])) in lets:
+            # `let fallback = match name {..}; Ok(fallback)`: the cases of the named value
+            expr(lets[A.ident(A.strip(e["args"][0]))], guarded, True)
             return
         found["fallback"] += 1
         if not guarded:
             found["bad"].append(e)
 
-    def block(stmts, guarded):
+    def block(stmts, guarded, wrapped=False):
         for i, s_ in enumerate(stmts):
             last = i == len(stmts) - 1
+            if s_.get("k") == "Let" and A.binding_name(s_["pat"]) and s_.get("init") is not None:
+                lets[A.binding_name(s_["pat"])] = s_["init"]
+                continue
             e = A.stmt_expr(s_)
             if e is None:
                 continue
@@ -505,27 +514,27 @@ def r4_resolver(rule, root=None):
                 tv = is_test(e["cond"])
                 th = A.stmts_of(e["then"])
                 lst = A.strip(A.stmt_expr(th[-1]) or {}) if th else {}
-                expr(e["then"], guarded or tv is False)
+                expr(e["then"], guarded or tv is False, wrapped)
                 if tv is True and lst.get("k") == "Return":
                     guarded = True  # what follows runs only when the script did not define the name
                 continue
             if e.get("k") == "Return":
                 if e.get("e") is not None:
-                    expr(e["e"], guarded)
+                    expr(e["e"], guarded, wrapped)
                 return
             if last and not s_.get("semi", True):
-                expr(e, guarded)
+                expr(e, guarded, wrapped)
 
-    def expr(e, guarded):
+    def expr(e, guarded, wrapped=False):
         e = A.strip(e)
         k = e.get("k")
         if k == "Block":
-            block(e["stmts"], guarded)
+            block(e["stmts"], guarded, wrapped)
         elif k == "If":
             tv = is_test(e["cond"])
-            expr(e["then"], guarded or tv is False)
+            expr(e["then"], guarded or tv is False, wrapped)
             if e.get("else") is not None:
-                expr(e["else"], guarded or tv is True)
+                expr(e["else"], guarded or tv is True, wrapped)
         elif k == "Match":
             covered_all = False
             covered = set()
@@ -534,17 +543,17 @@ def r4_resolver(rule, root=None):
                 tv = is_test(g) if g is not None else None
                 pl = lits(arm["pat"])
                 arm_guarded = guarded or covered_all or (pl is not None and pl <= covered) or tv is False
-                expr(arm["body"], arm_guarded)
-                if tv is True and str(A.ftxt(A.unblock(arm["body"]))) == "Ok(None)":
+                expr(arm["body"], arm_guarded, wrapped)
+                if tv is True and str(A.ftxt(A.unblock(arm["body"]))) == ("None" if wrapped else "Ok(None)"):
                     if pl is None:
                         covered_all = True
                     else:
                         covered |= pl
         elif k == "Return":
             if e.get("e") is not None:
-                expr(e["e"], guarded)
+                expr(e["e"], guarded, wrapped)
         else:
-            leaf(e, guarded)
+            leaf(e, guarded, wrapped)
 
     expr(fn["body"], False)
     if found["fallback"] < 2:
